@@ -306,19 +306,51 @@ func checkReaderDiscipline(c *Ctx, p *packages.Package) {
 	c.Check("R19.4", "reader: end of input is latched only when the next byte is the sentinel and forward is not at a half boundary", token.NoPos, eofOK, "io.EOF is assigned outside the last branch of the boundary test chain")
 	// (b2) a buffer half is loaded once: the loads are guarded by state other than the forward pointer, which Retract moves back
 	loaders := map[string]bool{}
+	type readSite struct {
+		fn    string
+		pos   token.Pos
+		fills bool
+	}
+	var readSites []readSite
 	AllFuncDecls(p, func(fd *ast.FuncDecl) {
 		if fd.Recv == nil || recvName(fd.Recv.List[0].Type) != recv || fd.Body == nil {
 			return
 		}
-		ast.Inspect(fd.Body, func(n ast.Node) bool {
-			if call, ok := n.(*ast.CallExpr); ok {
-				if sel, ok := call.Fun.(*ast.SelectorExpr); ok && sel.Sel.Name == "Read" {
-					loaders[fd.Name.Name] = true
+		// a loader reads the source: src.Read(..) directly, or io.ReadFull / io.ReadAtLeast on it
+		inLoop := 0
+		var walk func(n ast.Node) bool
+		walk = func(n ast.Node) bool {
+			switch x := n.(type) {
+			case *ast.ForStmt:
+				inLoop++
+				ast.Inspect(x.Body, walk)
+				inLoop--
+				return false
+			case *ast.CallExpr:
+				if sel, ok := x.Fun.(*ast.SelectorExpr); ok {
+					if fo, ok := info.Uses[sel.Sel].(*types.Func); ok {
+						full := fo.Pkg() != nil && fo.Pkg().Path() == "io" && (fo.Name() == "ReadFull" || fo.Name() == "ReadAtLeast")
+						direct := fo.Name() == "Read" && fo.Type().(*types.Signature).Recv() != nil
+						if full || direct {
+							loaders[fd.Name.Name] = true
+							readSites = append(readSites, readSite{fd.Name.Name, x.Pos(), full || inLoop > 0})
+						}
+					}
 				}
 			}
 			return true
-		})
+		}
+		ast.Inspect(fd.Body, walk)
 	})
+	// a short read is not the end of the input: the count that places the end marker comes from a fill-or-end read
+	for _, rs := range readSites {
+		c.Check("R19.4", "reader: "+rs.fn+" fills its half or meets the end of the source (io.ReadFull / io.ReadAtLeast, or Read in a loop)", token.NoPos, rs.fills,
+			"the half is loaded by a single Read and the end marker is put after the bytes it returned: an io.Reader may return fewer bytes than asked for without being at the end (pipe, terminal, socket), and may return the last bytes together with io.EOF; the rest of the input is dropped silently",
+			"any input delivered through testing/iotest.OneByteReader")
+	}
+	if len(readSites) < 2 {
+		c.Lost("R19.4", "the two reads of the source in the emitted reader")
+	}
 	nLoads, guardedLoads := 0, 0
 	var stack []ast.Node
 	ast.Inspect(nextB.Body, func(n ast.Node) bool {
@@ -373,6 +405,43 @@ func checkReaderDiscipline(c *Ctx, p *packages.Package) {
 	c.Check("R19.4", "reader: a buffer half is loaded once (each load is guarded by state that a retraction does not undo)", token.NoPos, nLoads >= 2 && guardedLoads == nLoads,
 		fmt.Sprintf("%d of %d loads in next() are guarded only by the position of the forward pointer: when forward arrives at a half boundary again after Retract, the next chunk overwrites the half that was just loaded and a buffer-half of input disappears", nLoads-guardedLoads, nLoads),
 		"an input longer than the buffer half with a token that begins on the last byte of a half")
+	// (b3) ring invariant: when forward arrives at len(buff) it is set back to 0 on every path (Lexeme and Retract walk the ring modulo len(buff))
+	wrapFound, wrapOK := false, false
+	ast.Inspect(nextB.Body, func(n ast.Node) bool {
+		ifs, ok := n.(*ast.IfStmt)
+		if !ok {
+			return true
+		}
+		b, ok := ast.Unparen(ifs.Cond).(*ast.BinaryExpr)
+		if !ok || b.Op != token.EQL {
+			return true
+		}
+		l, r := types.ExprString(b.X), types.ExprString(b.Y)
+		isWrap := func(x, y string) bool { return strings.HasSuffix(x, ".forward") && strings.HasPrefix(y, "len(") && strings.HasSuffix(y, ".buff)") }
+		if !isWrap(l, r) && !isWrap(r, l) {
+			return true
+		}
+		wrapFound = true
+		wrapOK = assignsOnAllPaths(ifs.Body.List, func(as *ast.AssignStmt) bool {
+			if len(as.Lhs) != 1 || len(as.Rhs) != 1 {
+				return false
+			}
+			sel, ok := as.Lhs[0].(*ast.SelectorExpr)
+			if !ok || sel.Sel.Name != "forward" {
+				return false
+			}
+			tv, ok := info.Types[as.Rhs[0]]
+			return ok && tv.Value != nil && tv.Value.ExactString() == "0"
+		})
+		return true
+	})
+	if !wrapFound {
+		c.Lost("R19.4", "the branch of next() taken when forward arrives at the end of the buffer")
+	} else {
+		c.Check("R19.4", "reader: forward wraps to 0 on every path on which it arrives at the end of the buffer", token.NoPos, wrapOK,
+			"on some path of the `forward == len(buff)` branch forward is not set back to 0 (e.g. when loading reports the end of the input): forward stays outside the ring, Lexeme's walk of lexemeBegin modulo len(buff) never meets it and does not terminate",
+			"an input whose length is exactly the size of the buffer (2 halves)")
+	}
 	// (c) Next: every byte read has its error returned immediately
 	var nextR *ast.FuncDecl
 	AllFuncDecls(p, func(fd *ast.FuncDecl) {
@@ -559,4 +628,50 @@ func checkColumnBookkeeping(c *Ctx, p *packages.Package, set *skeletonSet) {
 	walk(fn.Blocks[0], nil, 0)
 	c.Check("R19.4", "reader: every successful path of Next records one rune size and keeps the column bookkeeping that Retract undoes", token.NoPos, bad == "" && nPaths >= 4,
 		fmt.Sprintf("%s (%d successful paths examined)", bad, nPaths), "a line terminator that is itself a token, read as look-ahead and retracted: \"ab\\n12\"")
+}
+
+// assignsOnAllPaths: every path through the statement list executes an assignment accepted by is (no loops, returns fail the path).
+func assignsOnAllPaths(list []ast.Stmt, is func(*ast.AssignStmt) bool) bool {
+	for _, st := range list {
+		switch x := st.(type) {
+		case *ast.AssignStmt:
+			if is(x) {
+				return true
+			}
+		case *ast.ReturnStmt:
+			return false
+		case *ast.IfStmt:
+			if x.Else != nil {
+				var els []ast.Stmt
+				switch e := x.Else.(type) {
+				case *ast.BlockStmt:
+					els = e.List
+				case *ast.IfStmt:
+					els = []ast.Stmt{e}
+				}
+				if assignsOnAllPaths(x.Body.List, is) && assignsOnAllPaths(els, is) {
+					return true
+				}
+			}
+			if containsReturn(x) {
+				return false
+			}
+		case *ast.BlockStmt:
+			if assignsOnAllPaths(x.List, is) {
+				return true
+			}
+		}
+	}
+	return false
+}
+
+func containsReturn(n ast.Node) bool {
+	found := false
+	ast.Inspect(n, func(m ast.Node) bool {
+		if _, ok := m.(*ast.ReturnStmt); ok {
+			found = true
+		}
+		return !found
+	})
+	return found
 }
